@@ -22,7 +22,7 @@ _STATE = {}
 
 # methods a check may invoke on a *re-iterable collection*
 ALLOWED = {'__len__', '__iter__', '__next__', '__getitem__', 'keys', 'values', 'items', 'keys.__iter__', 'values.__iter__', 'items.__iter__',
-           'keys.__len__', 'values.__len__', 'items.__len__', '__eq__', '__hash__', '__contains__'}
+           'keys.__len__', 'values.__len__', 'items.__len__', '__contains__'}      # (__eq__ is granted for literals only; no hint here has one)
 ON_REJECT = {'__repr__'}
 
 
@@ -156,9 +156,15 @@ def _work(idx):
             seen.append(a)
             return a
         f2.__annotations__ = dict(f.__annotations__)
+
+        def fk(p=None, /, *rest, a, **kw):
+            seen.append(a)
+            return a
+        fk.__annotations__ = dict(f.__annotations__)
         try:
             g = beartype(f)
             g_on = beartype(conf=conf_on)(f2)
+            g_kw = beartype(fk)
         except Exception as e:
             out['violations'].append((f'decorate:{hname}:{type(e).__name__}', f'@beartype raised {type(e).__name__}: {str(e)[:160]}', {'hint': hname}))
             return out
@@ -171,7 +177,7 @@ def _work(idx):
                 continue
             for cname, items in CONTENTS.items():
                 for r in _STATE['res']:
-                    for entry in ('is_bearable', 'die_if_unbearable', 'decorated') + (('die_if_unbearable+bad-sibling', 'decorated+bad-sibling', 'die_if_unbearable+On+bad-sibling', 'decorated+On+bad-sibling') if wrappable(hname) else ()) + ('is_bearable+On', 'die_if_unbearable+On'):
+                    for entry in ('is_bearable', 'die_if_unbearable', 'decorated') + (('die_if_unbearable+bad-sibling', 'decorated+bad-sibling', 'die_if_unbearable+On+bad-sibling', 'decorated+On+bad-sibling') if wrappable(hname) else ()) + ('is_bearable+On', 'die_if_unbearable+On', 'decorated+kwonly'):
                         subj = mk(list(items))
                         x = wrap(hname, subj, entry.endswith('+bad-sibling'))
                         entry_kind = entry
@@ -189,7 +195,7 @@ def _work(idx):
                             elif entry == 'die_if_unbearable':
                                 die_if_unbearable(x, h, conf=conf)
                             else:
-                                res = (g_on if conf is conf_on else g)(x)
+                                res = g_kw(a=x) if '+kwonly' in entry_kind else (g_on if conf is conf_on else g)(x)
                         except BeartypeCallHintViolation:
                             rejected = True
                         except Exception as e:
